@@ -302,6 +302,40 @@ def run_family(ctx):
                 ctx.count("E2_cyclic_family", "optimum_agrees")
 
 
+def run_factor_family(ctx):
+    """deterministic DAG instances with path_length_factors (errlib.length_factor_family): tight ranges, factors far apart, a perfect
+    decomposition -- optimum total slack 0 with all slacks 0, so the open factor-bound findings do not apply; every instance must be
+    solved with objective 0, k=None must pick 3, and the returned solution must pass the full E2 recomputation"""
+    import flowpaths as fp
+    for fam in errlib.length_factor_family():
+        a = dict(fam["args"], solver_options=dict(errlib.SOLVER))
+        rep = {"class": "kMinPathError", "family": fam["name"], "args": errlib.describe(a), "closed_form_optimum": "0"}
+        try:
+            m = fp.kMinPathError(**errlib.clean_args(a)); m.solve()
+        except Exception as e:
+            ctx.report(f"kMinPathError raised {e!r} on family instance {fam['name']}", rep); continue
+        ctx.case(["mpe-length-factors", fam["name"]], nontrivial=True)
+        if a["k"] is None and m.k != fam["width"]:
+            ctx.report(f"kMinPathError(k=None) chose k={m.k} on '{fam['name']}', the covering number is {fam['width']}", rep); continue
+        st = m.solver.get_model_status()
+        if not m.is_solved():
+            if st == "kInfeasible":
+                errlib.report(ctx, f"kMinPathError is infeasible on '{fam['name']}' although k={m.k} >= covering number 3 and the three paths with "
+                                   f"their exact weights and slack 0 satisfy every row (length factors only select a constant per path)", rep,
+                              "kMinPathError", a, m)
+            else:
+                ctx.count("E2_length_factor_family", "inconclusive:" + str(st))
+            continue
+        so = check_solution(ctx, "kMinPathError", a, m, True, eng="E2_length_factor_family")
+        if so is None:
+            continue
+        if abs(so) > 1e-6:
+            rep["solution"] = {x: y for x, y in m.get_solution().items() if not x.startswith("_")}
+            errlib.report(ctx, f"kMinPathError on '{fam['name']}' returns total slack {so}, the optimum is 0", rep, "kMinPathError", a, m)
+        else:
+            ctx.count("E2_length_factor_family", "optimum_agrees")
+
+
 def cyclic_infeasible(ctx, cls, a, width, k_eff):
     """k >= width but infeasible.  Two known mechanisms, both "repetitions are bounded through the weights":
        (a) repetition cap = largest reachable weight: multiplying all weights by a large constant (which changes nothing
@@ -364,7 +398,7 @@ def run(ctx):
     ctx.rule = ("kMinPathError on random DAGs (<= 5 nodes; covering number <= 4) with arbitrary non-negative weights (int / dyadic float), "
                 "k in {None, width, width+1, width-1}, ignore sets, error_scaling incl. 0 and 1/2, additional starts/ends, subpath constraints, "
                 "solution_weights_superset, path_length_ranges/factors (int type), length_attr, edge and node origin; tiny stream: <= 6 edges, weights <= 4, "
-                "integer type, k <= 3, compared with the exhaustive optimum; cyclic stream: kMinPathErrorCycles on <= 5-node digraphs + the figure-eight; deterministic cyclic families with closed-form optimum (chain with a zero-flow SCC 1..4 hops up-/downstream of the heavy edge, fractional perfect decompositions, loops with power-of-two weights). "
+                "integer type, k <= 3, compared with the exhaustive optimum; cyclic stream: kMinPathErrorCycles on <= 5-node digraphs + the figure-eight; deterministic cyclic families with closed-form optimum (chain with a zero-flow SCC 1..4 hops up-/downstream of the heavy edge, fractional perfect decompositions, loops with power-of-two weights, several heavy cycles through ONE hub vertex); deterministic DAG family with tight path-length ranges and far-apart factors on perfect decompositions (optimum 0). "
                 "non-trivial = LP has more than 12 rows / graph has a cycle")
     for wfun in (witnesses, lambda c: c07.witness_6(c, "kMinPathError")):
         try:
@@ -374,6 +408,7 @@ def run(ctx):
     run_dag(ctx, ctx.budget(170, 5000), tiny=False)
     run_dag(ctx, ctx.budget(160, 5000), tiny=True)
     run_family(ctx)
+    run_factor_family(ctx)
     run_cyclic(ctx, ctx.budget(50, 1500))
     import e1werr   # E1_cycles: LP of kMinPathErrorCycles == WalkErrEnc.encode_kmpe_cycles (harness/e1werr.py)
     e1werr.run_e1_cycles(ctx, "kMinPathErrorCycles", c07.rand_cyclic_err, ctx.budget(50, 1200), "mpe-cyc-e1")
